@@ -171,8 +171,7 @@ pub fn check_case(ctx: &Ctx, n: u64, case: &Case) -> Vec<Violation> {
     let mut args: Vec<&str> = case.commands.iter().map(|s| s.as_str()).collect();
     args.push("--output-format");
     args.push(&case.format);
-    let cwd = dir.join(&case.root);
-    let r = cli::run_cli(&ctx.cli, &cwd, &args, Duration::from_secs(120));
+    let (r, style) = cli::run_cli_any_style(&ctx.cli, &dir, &case.root, &case.files, &args, Duration::from_secs(120));
     let after = cli::snapshot(&dir);
     let abs = |rel: &str| norm(&format!("{}/{}", dir.to_string_lossy(), rel));
     let input_abs: BTreeMap<String, (String, &'static str)> = case
@@ -184,7 +183,7 @@ pub fn check_case(ctx: &Ctx, n: u64, case: &Case) -> Vec<Violation> {
     let text_of = |rel: &str| case.files.iter().find(|(p, _)| p == rel).map(|(_, t)| t.clone()).unwrap_or_default();
     let first_stage = case.faults.iter().map(|f| f.stage).min();
     let fmt = case.format.as_str();
-    let what = format!("commands {:?} format {fmt} faults {:?}", case.commands, case.faults.iter().map(|f| format!("{:?}:{}:{}", f.stage, f.file, f.label)).collect::<Vec<_>>());
+    let what = format!("commands {:?} ({style}) format {fmt} faults {:?}", case.commands, case.faults.iter().map(|f| format!("{:?}:{}:{}", f.stage, f.file, f.label)).collect::<Vec<_>>());
 
     // ---- crash detection
     if let Some(l) = r.panicked() {
